@@ -283,7 +283,7 @@ def _keep_small(row):
 
 REPEATABLE = {
     'validate': lambda d: d.validate(),
-    'set_type': lambda d: d.set_type('n', type='integer'),
+    'set_type': lambda d: d.set_type('n', type='number'),      # (resources=-1: the last resource at ITS position)
     'sort_rows': lambda d: d.sort_rows('{id}'),
     'filter_rows': lambda d: d.filter_rows(condition=_keep_small),
     'find_replace': lambda d: d.find_replace([{'name': 's', 'patterns': [{'find': 'zzz+', 'replace': 'z'}]}]),
@@ -301,13 +301,17 @@ def run_repeated_step(case):
     viol = []
     op = sorted(REPEATABLE)[case['idx'] % len(REPEATABLE)]
     tables = dsl.initial_tables(rng, nres=rng.choice([1, 2]), sizes=(1, 3, 101))
-    middle = rng.choice(['row_function', 'other_step', 'nothing'])
+    middle = rng.choice(['row_function', 'other_step', 'nothing', 'new_source', 'new_source'])
 
     def mid():
         if middle == 'row_function':
             return [dsl.make_callable('u_bump_n', 'function')]
         if middle == 'other_step':
             return [d.update_package(note='x')]
+        if middle == 'new_source':
+            # a further resource arrives between the two positions: the second occurrence works on another package
+            extra = dict(tables[0], name='extra', rows=[dict(r) for r in tables[0]['rows'][:5]])
+            return [dsl.build_source(extra)]
         return []
 
     def run(shared):
